@@ -104,7 +104,7 @@ def _worker(args):
             if case is None:
                 i += stride
                 continue
-            case["_run"] = {"index": i, "seed": seed}
+            case["_run"] = {"index": i, "seed": seed, "start": start, "stride": stride, "tier": tier, "base": base}
             res = mod.check(case)
             signal.setitimer(signal.ITIMER_REAL, 0)
         except RunTimeout:
@@ -256,8 +256,57 @@ def replay_file(pid, path):
     mod = load_prop(pid)
     with open(path) as f:
         rp = json.load(f)
+    if rp.get("history"):
+        return rp, run_history(pid, rp["history"])
     res = mod.check(rp["case"])
     return rp, [v.as_dict() for v in res.violations]
+
+
+def run_history(pid, hist):
+    """re-execute a sequence of run indices in this (fresh) process; returns the violations of the last one.
+    Used when a violation depends on what was decoded before in the same process (state leaking between decodes)."""
+    mod = load_prop(pid)
+    last = []
+    for i in hist["indices"]:
+        seed = run_seed(hist["base"], pid, hist["tier"], i)
+        rng = random.Random(seed)
+        try:
+            case = mod.make_case(i, rng, hist["tier"])
+            if case is None:
+                continue
+            res = mod.check(case)
+            last = [v.as_dict() for v in res.violations]
+        except Exception:
+            last = []
+    return last
+
+
+def history_replay(pid, case, v):
+    """the single case does not reproduce in a fresh process: find a short suffix of the worker's run sequence
+    that does, and write it as the replay file"""
+    r = case.get("_run") or {}
+    if "start" not in r:
+        return None
+    seq = list(range(r["start"], r["index"] + 1, r["stride"]))
+    for m in (2, 3, 5, 9, 17, 33, 65, 129, len(seq)):
+        if m > len(seq) and m != len(seq):
+            m = len(seq)
+        hist = {"base": r["base"], "tier": r["tier"], "indices": seq[-m:]}
+        d = os.path.join(VERIF, "replays")
+        os.makedirs(d, exist_ok=True)
+        path = os.path.join(d, "%s-%s-history%d.json" % (pid, r["seed"], m))
+        with open(path, "w") as f:
+            json.dump({"property": pid, "clause": v["clause"], "signature": v["sig"], "message": v["msg"],
+                       "history": hist, "case": case,
+                       "note": "the violation depends on what was decoded before in the same process; the replay "
+                               "re-executes these run indices in order in a fresh process"}, f, indent=1, sort_keys=True, default=str)
+        ok, _ = confirm_in_fresh_process(pid, path)
+        if ok:
+            return path
+        os.remove(path)
+        if m == len(seq):
+            break
+    return None
 
 
 def confirm_in_fresh_process(pid, path):
@@ -347,6 +396,17 @@ def main_check(pid, tier, runs=None, budget=None, jobs=None, replay=None, eviden
             vv = v
         path = write_replay(pid, small, vv)
         ok, outp = confirm_in_fresh_process(pid, path)
+        if not ok:
+            # history dependence: state leaked from earlier decodes in the worker process
+            hp = history_replay(pid, case, v)
+            if hp is not None:
+                print("VIOLATION property=%s replay=%s" % (pid, hp))
+                print("  clause=%s sig=%s occurrences=%d (depends on the decodes made before in the same process; history replay)" % (v["clause"], sig, len(lst)))
+                print("  " + v["msg"][:1500].replace("\n", "\n  "))
+                if exit_code == 0:
+                    exit_code = 1
+                report.append({"sig": sig, "known": False, "count": len(lst), "replay": hp, "reproduced": True, "history": True})
+                continue
         if not ok:
             print("HARNESS-ERROR: replay %s does not reproduce %s in a fresh process:\n%s" % (path, sig, outp[-1500:]))
             exit_code = max(exit_code, 2)
